@@ -26,6 +26,7 @@ class RefPeer(Peer):
         self.dt_gap = list(dt_gap)
         self.bam_gap = list(bam_gap)
         self.hold_gap = list(hold_gap)  # time between two consecutive CTS of a hold (the standard's Th: at most 0.5 s)
+        self.retx = False               # responder role: re-request the packets of a window from the first missing one on
         self.rlat_seq = None            # optional: reply latencies consumed one per reply decision (scripted peer timing)
         self.rx = {}                    # responder sessions
         self.tx = None                  # originator session
@@ -89,6 +90,11 @@ class RefPeer(Peer):
             key = (d['sess'], fr.sa) if fr.ps == self.addr else (d['sess'], fr.sa, 'b')
             s = self.rx.get(key)
             if s is None:
+                return
+            if self.retx and not s['bam'] and s['next'] <= s['n'] and (d['size'], d['nseg']) == (s['size'], s['n']):
+                # segments are missing: ask for them again instead of acknowledging
+                lat = self.w.choose('p.rlat', self.rlat)
+                self.later(lat, lambda: self.hold_then_cts(s, 0))
                 return
             if s['next'] <= s['n'] or (d['size'], d['nseg']) != (s['size'], s['n']):
                 self.problems.append("end-of-message status does not match what was received")
@@ -154,6 +160,13 @@ class RefPeer(Peer):
             return
         seg = 60 if self.fd else 7
         if seq != s['next']:
+            if self.retx and not s['bam'] and seq > s['next']:
+                # a packet was lost: ignore the rest of the window and, at its end, ask again from the missing packet on
+                # (J1939-21 5.10.2.4 / J1939-22: the CTS names the next packet the responder wants)
+                if seq == s['win_end'] and not (self.fd and seq == s['n']):      # (FD: the end-of-message status follows)
+                    lat = self.w.choose('p.rlat', self.rlat)
+                    self.later(lat, lambda: self.hold_then_cts(s, 0))
+                return
             self.problems.append("packet %d received, %d expected" % (seq, s['next']))
             return
         if not s['bam'] and seq > s['win_end']:
